@@ -70,6 +70,11 @@ def network_consistent(self):
             STATE["why"] = f"netconfig {netconfig.net_ip} not indexed under its network address"
             return False
         seen_ips[interface.ip] += 1
+    tables = [id(netconfig.range) for netconfig in self.netconfigs.values()]
+    if len(set(tables)) != len(tables):
+        # every netconfig hands out the addresses of its own range
+        STATE["why"] = "two netconfigs share one allocation table"
+        return False
     for netconfig in self.netconfigs.values():
         # the two views of the mask of one netconfig agree at all times
         prefix = ipaddress.ip_network(f"0.0.0.0/{netconfig.netmask}").prefixlen
